@@ -555,10 +555,11 @@ func (ps *PruningStorer) Remove(key []byte) error {
 
 	ps.lock.RLock()
 	defer ps.lock.RUnlock()
+	// the key may live in an older active persister (it was put before an epoch change): remove it from all of them
 	for _, pd := range ps.activePersisters {
-		err = pd.persister.Remove(key)
-		if err == nil {
-			return nil
+		errRemove := pd.persister.Remove(key)
+		if errRemove != nil {
+			err = errRemove
 		}
 	}
 
